@@ -26,7 +26,7 @@ SHARD_TIMEOUT = {"quick": 900, "thorough": 3600}
 
 def gen_cases(tier, seed):
     rng = gen.rng_for(seed, "c08", tier)
-    n = 1800 if tier == "quick" else 80000
+    n = 3600 if tier == "quick" else 80000
     cases = []
     for k in range(n):
         kind = ["SGD", "Adam", "AdamW"][k % 3]
